@@ -10,6 +10,8 @@ OUT=$1; shift
 ROOT=${SWEEP_ROOT:-/tmp/sweep}
 JOBS=${SWEEP_JOBS:-3}
 export VERIF_THREADS=${VERIF_THREADS:-5}
+# a loaded machine must not cut the scenario counts of the quick tier
+export VERIF_WALL_S=${VERIF_WALL_S:-600}
 CHECKS=${CHECKS:-C05 C08 C11 C15 C16 C18}
 mkdir -p $ROOT
 # one snapshot of /verif (working tree, as it is now) for the whole sweep, so that edits made
